@@ -18,6 +18,7 @@ def rewriteWith (z : Bytes) (mask : List Bool) (force : Bool) (mt md : Nat) (new
     match mangle r d.files mask { files := [], size := 0, dirLoc := 0 } [] with
     | .ok (nd, dels) =>
       let p := addNews mt md news ([], nd)
+      if !headersOK p.2.files then .err "extratoolong" else   -- fix-F7g: `WriteDirectory` fails, nothing is produced
       let w := writeDirectory p.2 force
       .ok (dropRanges z d.dirLoc dels ++ p.1 ++ w.1 ++ w.2.1)
     | .err x => .err x
